@@ -242,7 +242,7 @@ func c15Run(rc *RunCtx, params any) {
 				if _, err := conn.Write(pl); err != nil {
 					return
 				}
-				time.Sleep(time.Duration(17+6*len(ep)) * time.Millisecond)
+				s.Sleep(time.Duration(17+6*len(ep)) * time.Millisecond)
 			}
 		})
 	}
@@ -563,7 +563,7 @@ func c15RunListener(rc *RunCtx, p *C15Params) {
 				if _, werr := c.conn.Write(pl); werr != nil {
 					return
 				}
-				time.Sleep(23 * time.Millisecond)
+				s.Sleep(23 * time.Millisecond)
 			}
 		})
 	}
